@@ -60,9 +60,11 @@ CLAIMED = {
              "acknowledge incl. pending, exact-size slice = Vec output, constructors are Ok exactly when the true "
              "lengths fit 16 bits (no truncation; the u16 product in WriteMemStacked::new is shown unreachable "
              "otherwise). Tied to /repo by running the real constructors/serialize and the extracted model on the "
-             "same commands; predicate = independent Python encoder of the U3V layout.",
+             "same commands; predicate = independent Python encoder of the U3V layout. Magic, the four command ids and "
+             "the request-ack flag of the model are proved equal to gen/ProtoTables.v, REGENERATED from cmd.rs / ack.rs on "
+             "every run (C09_constants_from_source; each acknowledge id of the source table = command id + 1).",
         note="Trusted: Coq kernel, model/Cmd.v validated by correspondence, spec/CmdLayout.v (decoder typed from the "
-             "U3V layout), extraction cross-checked with vm_compute, driver.ml, rust/h_proto, tools/c09.py.",
+             "U3V layout), tools/translate_proto.py (regex translator of the protocol constants, shape assertions), extraction cross-checked with vm_compute, driver.ml, rust/h_proto, tools/c09.py.",
         technique="Coq proof (decoder∘encoder = id by induction over entry lists) + model/implementation correspondence",
         design="6/C09"),
     "C08": dict(
@@ -74,9 +76,12 @@ CLAIMED = {
              "acknowledge and every event list (multi- and single-event form) round-trips through the decoder "
              "(induction over lists); event decoding is total. Two _refuted theorems record the defects of the pinned "
              "code (repaired by fix: commits). Tied to /repo by running the real decoders and the extracted model on "
-             "exhaustive status codes, windows of scd_len, truncations, mutations and random strings.",
+             "exhaustive status codes, windows of scd_len, truncations, mutations and random strings. The model's status "
+             "tables, namespace shift / mask / dispatch, acknowledge-kind table and magic numbers are proved equal - for "
+             "every code - to gen/ProtoTables.v, REGENERATED from the match arms of ack.rs / event.rs on every run "
+             "(C08_status_table_from_source, C08_ack_kind_from_source, C08_magic_from_source).",
         note="Trusted: Coq kernel, model/Ack.v + model/Event.v validated by correspondence, spec/GenCPLayout.v (typed from "
-             "the GenCP/U3V layout and code tables), extraction cross-checked with vm_compute, driver.ml, rust/h_proto, "
+             "the GenCP/U3V layout and code tables), tools/translate_proto.py (regex translator, shape assertions), extraction cross-checked with vm_compute, driver.ml, rust/h_proto, "
              "tools/c08.py (independent Python offset decoder as predicate). Debug-build semantics.",
         technique="Coq proof (cursor = offset spec; 65536-code enumeration by vm_compute; list induction) + correspondence",
         design="6/C08"),
@@ -90,9 +95,10 @@ CLAIMED = {
              "received <= buffer, so image()/payload() cannot panic; build never panics; the backwards chunk walk is "
              "bounded. Codec part tied to /repo by correspondence in h_proto (incl. sweeps of pixel-code ranges, all "
              "2^32 codes in the thorough tier); payload assembly is tied through the real streaming loop in the C12 "
-             "harness.",
+             "harness. Leader / trailer magic, payload type and payload status tables of the model are proved equal, for "
+             "every value, to gen/ProtoTables.v regenerated from stream.rs on every run (C11_stream_tables_from_source).",
         note="Trusted: Coq kernel, model/Stream.v + model/Payload.v, spec/StreamLayout.v (typed from the U3V layout), "
-             "tools/translate.py (regex translator, shape assertions), extraction + driver, rust/h_proto, tools/c11.py.",
+             "tools/translate.py and tools/translate_proto.py (regex translators, shape assertions), extraction + driver, rust/h_proto, tools/c11.py.",
         technique="Coq proof (cursor = offset spec; table bijection by vm_compute over regenerated tables; builder bounds) + translator + correspondence",
         design="6/C11"),
 }
